@@ -27,6 +27,8 @@ ASSUMPTIONS = [
     "file and network access is observed through CPython audit events (open, socket.*, urllib.*) raised in the worker process",
     "a DTD that re-declares one of the five predefined entities (XML 1.0 section 4.6) is not counted as declaring entities: expat "
     "drops such declarations without reporting or using them, so there is nothing to expand or fetch; either answer is accepted",
+    "'cannot consume memory': the traced peak while a declaring document is refused stays below 12 x its size + 2 MiB (the "
+    "unchanged library needs at most 7 copies of the text); the amplified family expands to 3 MiB from 66 KiB",
 ]
 ALPHABET = "entry point x family x depth x reference site"
 BOUND = {"quick": "4 entry points x 13 families x depth 1..6 x 3 sites; all pairs, triples over 3 entry points x 3 kinds",
@@ -36,7 +38,7 @@ EXPECT_OUTCOMES = ["refused", "parsed"]
 ENTRY = ["ovf", "vbox", "pvs", "hdd"]
 FAMILIES = ["internal", "laughs", "external-file", "external-http", "param-internal", "param-external", "external-dtd",
             "doctype-only", "plain", "predefined-redeclared", "predefined-case-variant", "unparsed", "internal-empty",
-            "external-empty-sysid", "param-empty", "internal-empty-unused"]
+            "external-empty-sysid", "param-empty", "internal-empty-unused", "amplified"]
 # entity names that case-fold to one of the five predefined names (expat only hard-wires the exact lower-case spellings)
 CASE_VARIANTS = ["AMP", "LT", "Gt", "Apos", "QUOT", "aMp"]
 SITES = ["text", "attribute", "unused"]
@@ -156,6 +158,8 @@ def run_shard(shard, ctx):
     for fam in FAMILIES:
         deep = 7 if shard.get("tier", "quick") == "quick" else 11
         depths = range(1, deep) if fam in ("laughs", "internal", "param-internal", "predefined-case-variant") else (1,)
+        if fam == "amplified":
+            depths = (1, 2)
         for depth in depths:
             for site in SITES:
                 for handle in (("text", "bytes") if shard["entry"] != "hdd" else ("text",)):
@@ -197,6 +201,14 @@ def _doctype(fam, depth, canary, root):
     if fam == "laughs":
         decls = ['<!ENTITY lol0 "lol">'] + [f'<!ENTITY lol{i} "{"&lol%d;" % (i - 1) * 10}">' for i in range(1, depth + 3)]
         return f"<!DOCTYPE {root} [{''.join(decls)}]>", f"&lol{depth + 2};"
+    if fam == "amplified":
+        # one 64 KiB entity (depth 2: built from eight references to an 8 KiB one) referenced 48 times: 3 MiB once expanded,
+        # below the parser's own amplification guard.  Refusing it must not cost what expanding it costs
+        if depth == 1:
+            decls = f'<!ENTITY big "{"x" * 65536}">'
+        else:
+            decls = f'<!ENTITY part "{"y" * 8192}"><!ENTITY big "{"&part;" * 8}">'
+        return f"<!DOCTYPE {root} [{decls}]>", "&big;" * 48
     if fam == "predefined-redeclared":
         # XML 1.0 4.6 allows documents to declare the predefined entities; it still is an entity declaration
         return f'<!DOCTYPE {root} [<!ENTITY lt "&#38;#60;"><!ENTITY amp "&#38;#38;"><!ENTITY quot "&#34;">]>', "&amp;"
@@ -417,13 +429,29 @@ def run_case(case, ctx):
         ctx.transitions += 1
         ctx.states += 1
         result = exc = None
+        import tracemalloc
+
         with ctx.watch(case, 120):
-            with monitors.armed() as events:
-                try:
-                    result = _parse(entry, doc, d, case.get("handle", "text"), case.get("encoding"))
-                except Exception as e:
-                    exc = e
-            evs = list(events)
+            tracemalloc.start(1)
+            tracemalloc.reset_peak()
+            try:
+                with monitors.armed() as events:
+                    try:
+                        result = _parse(entry, doc, d, case.get("handle", "text"), case.get("encoding"))
+                    except Exception as e:
+                        exc = e
+                evs = list(events)
+            finally:
+                peak = tracemalloc.get_traced_memory()[1]
+                tracemalloc.stop()
+        if declares:
+            # refusing a document costs no more memory than reading it: a few copies of its text (measured: up to 7), never its expansion
+            allow = 12 * len(doc.encode("utf-8", "surrogatepass")) + (2 << 20)
+            ctx.maxi("refusal_peak_over_allowance_permille", int(1000 * peak / allow))
+            if peak > allow:
+                ctx.violation(case, {"subject": f"xml.{entry}", "kind": "refusal-costs-expansion", "family": fam},
+                              {"peak_bytes": peak, "allowance": allow, "document_bytes": len(doc)})
+                return
         bad = [e for e in evs if monitors.classify(e) == "network" or (e[0] == "open" and e[1] and isinstance(e[1][0], str)
                                                                        and "canary" in e[1][0])]
         if bad:
